@@ -257,6 +257,25 @@ def prog_callbacks(n):
 """ % n + TAIL, [Sym("ok"), [True, True, True], Sym("total"), 3 * n * 40]
 
 
+def prog_callbacks_stop(how):
+    # a thread is terminated (SRFI 18) or interrupted (what SIGINT does) while it is inside a sort comparator, i.e. while
+    # a C function is on the C stack on its behalf and other threads may be running inside that C function's nested VM
+    stop = {"terminate": "(thread-terminate! a)", "interrupt": "(thread-interrupt! a)"}[how]
+    return ("(import (scheme base) (scheme write) (scheme process-context) (srfi 18) (srfi 95) (only (srfi 1) filter) (only (chibi ast) thread-interrupt!))\n" + """
+(define (slow-less a b) (let lp ((i 0)) (if (< i 200) (lp (+ i 1)) (< a b))))
+(define (sorter n) (lambda () (let lp ((k 0)) (if (< k n) (begin (sort (list 5 3 8 4 1 2 9 7 6) slow-less) (lp (+ k 1))) 'finished))))
+(define results '())
+(do ((round 0 (+ round 1))) ((= round 12))
+  (let ((a (make-thread (sorter 50))) (b (make-thread (sorter 4))))
+    (thread-start! a) (thread-start! b)
+    (thread-yield!) (thread-yield!)
+    %s
+    (let* ((ra (guard (e (#t 'stopped)) (thread-join! a))) (rb (thread-join! b)))
+      (set! results (cons (list (if (eq? ra 'finished) 'stopped ra) rb) results)))))
+(write (list 'rounds (length results) 'b-finished (length (filter (lambda (r) (eq? (cadr r) 'finished)) results)) (sort (list 3 1 2) slow-less)))
+""" % stop + TAIL, [Sym("rounds"), 12, Sym("b-finished"), 12, [1, 2, 3]])
+
+
 def programs(rng, tier):
     ps = [
         ("counter-2", prog_counter(2, 12)), ("counter-5", prog_counter(5, 8)),
@@ -266,6 +285,7 @@ def programs(rng, tier):
         ("params", prog_params(4, 6)), ("exceptions", prog_exceptions()),
         ("sleepers", prog_sleepers(4, 3)), ("sleepy-condvar", prog_sleepy_condvar(4)),
         ("callbacks", prog_callbacks(6)),
+        ("callbacks-terminate", prog_callbacks_stop("terminate")), ("callbacks-interrupt", prog_callbacks_stop("interrupt")),
     ]
     return ps
 
@@ -309,6 +329,12 @@ def check(rep, tier, seed):
     jobs = []
     for name, (text, exp) in progs:
         jobs.append((name, exp, None))                       # default quantum: the reference behaviour
+        if name in ("callbacks-terminate", "callbacks-interrupt"):
+            # the default quantum as an explicit schedule (so that the step budget applies), then coarse random slices
+            jobs.append((name, exp, "list:500:500"))
+            for i in range(4 if tier == "quick" else 60):
+                jobs.append((name, exp, "seed:%d:%d" % (rng.randrange(1, 10 ** 9), (500, 100)[i % 2])))
+            continue
         for i in range(nseeds):
             q = quanta[i % len(quanta)]
             jobs.append((name, exp, "seed:%d:%d" % (rng.randrange(1, 10 ** 9), q)))
@@ -325,20 +351,24 @@ def check(rep, tier, seed):
         env = {"CHIBI_VERIF_HEAPCHECK": 1, "CHIBI_VERIF_DEADLOCK": 1}
         if sched:
             env["CHIBI_VERIF_SCHED"] = sched
+        if name in ("callbacks-terminate", "callbacks-interrupt") and sched:
+            env["CHIBI_VERIF_MAXSLICES"] = 300000      # a complete run needs about 4e4 quanta of >= 100 instructions
         if name == "callbacks" and sched:
             # CPU-only program: "never finishes" is decided in logical steps (quanta handed out), not by the wall clock;
             # the longest legitimate run (slices of 1 instruction) needs about 2e5
             env["CHIBI_VERIF_MAXSLICES"] = 30000000
-        r = R.run(b, [paths[name]], env_extra=env, timeout=60)
+        # (the scheduler's way of not making progress can be an endless stream of error reports: 20 MB of them is enough)
+        fs = 20 if name.startswith("callbacks-") else 1024
+        r = R.run(b, [paths[name]], env_extra=env, timeout=60, fsize_mb=fs)
         if r.timed_out:                                      # re-run once before calling it a hang (inconclusive)
-            r = R.run(b, [paths[name]], env_extra=env, timeout=120)
+            r = R.run(b, [paths[name]], env_extra=env, timeout=120, fsize_mb=fs)
         return j, r
 
     hashes = set()
     switches = slices = dlchecks = 0
     for (name, exp, sched), r in R.pmap(run_job, jobs):
         kind = "default" if sched is None else sched.split(":")[0] + (":" + sched.split(":")[2] if sched.startswith("seed") else "")
-        fam = "callbacks" if name == "callbacks" else "plain"
+        fam = "callbacks" if name.startswith("callbacks") else "plain"
         for dct in r.log_kv("SCHED-SUMMARY"):
             hashes.add((name, dct.get("hash")))
             switches += dct.get("switches", 0)
@@ -350,7 +380,8 @@ def check(rep, tier, seed):
         if r.timed_out:
             rep.inconc("timeout" if fam == "plain" else "timeout-in-callback-family", "%s %s" % (name, sched))
             continue
-        if r.rc == 87 or r.log_lines("STEP-BUDGET"):
+        if r.rc == 87 or r.log_lines("STEP-BUDGET") or (name.startswith("callbacks-") and r.sig == 25):   # 25 = SIGXFSZ
+            # no verdict by the clock: the step budget ran out, or the process wrote error reports without end
             rep.violation(dict(sig, check="no-progress"), dict(wit, budget=r.log_lines("STEP-BUDGET")[:1]))
             continue
         if r.rc == 86 or r.log_lines("DEADLOCK"):
